@@ -22,6 +22,8 @@ CMAKE_ARGS = ["-G", "Ninja", "-DCMAKE_CXX_FLAGS=-D%s -Wno-error" % GUARD, "-DCMA
               "-Denable_lto=OFF", "-Denable_java=OFF", "-Denable_fortran=OFF", "-Denable_python=OFF",
               "-Denable_model-checking=ON", "-Denable_smpi=ON", "-Denable_documentation=OFF",
               "-Denable_compile_warnings=OFF", "-DCMAKE_BUILD_TYPE=RelWithDebInfo"]
+if os.environ.get("VERIF_CCACHE"):     # bin/mutcheck slots share a compiler cache
+    CMAKE_ARGS += ["-DCMAKE_CXX_COMPILER_LAUNCHER=ccache", "-DCMAKE_C_COMPILER_LAUNCHER=ccache"]
 SG_TARGETS = ["simgrid", "simgrid-mc", "smpimain", "sthread", "smpireplaymain"]
 
 FORBIDDEN = re.compile(r"\b(Admitted|admit|Axiom|Axioms|Parameter|Parameters|Conjecture|Admit Obligations)\b|Unset Guard|bypass_check|type-in-type|impredicative-set|Unset Universe Checking|Unset Positivity")
@@ -35,40 +37,40 @@ def log(*a):
     print(*a, flush=True)
 
 
-def sh(cmd, cwd=None, timeout=None, env=None, inp=None, check=False):
-    """Run a command, return (rc, stdout+stderr)."""
+def _run(cmd, cwd, timeout, env, inp, merge):
+    import signal
     if isinstance(cmd, str):
         cmd = shlex.split(cmd)
     e = dict(os.environ)
     if env:
         e.update(env)
+    p = subprocess.Popen(cmd, cwd=cwd, env=e, stdin=subprocess.PIPE if inp is not None else subprocess.DEVNULL,
+                         stdout=subprocess.PIPE, stderr=subprocess.STDOUT if merge else subprocess.PIPE,
+                         text=True, errors="replace", start_new_session=True)
     try:
-        p = subprocess.run(cmd, cwd=cwd, env=e, input=inp, stdout=subprocess.PIPE, stderr=subprocess.STDOUT,
-                           timeout=timeout, text=True, errors="replace")
-        rc, out = p.returncode, p.stdout
-    except subprocess.TimeoutExpired as ex:
-        rc, out = 124, (ex.stdout or "") if isinstance(ex.stdout, str) else (ex.stdout or b"").decode("utf8", "replace")
-        out += "\n[timeout after %ss]" % timeout
+        so, se = p.communicate(inp, timeout=timeout)
+        return p.returncode, so or "", se or ""
+    except subprocess.TimeoutExpired:
+        try:
+            os.killpg(p.pid, signal.SIGKILL)      # the whole group: smpirun/simgrid-mc leave grandchildren behind
+        except OSError:
+            pass
+        so, se = p.communicate()
+        return 124, so or "", (se or "") + "\n[timeout after %ss]" % timeout
+
+
+def sh(cmd, cwd=None, timeout=None, env=None, inp=None, check=False):
+    """Run a command, return (rc, stdout+stderr)."""
+    rc, so, se = _run(cmd, cwd, timeout, env, inp, True)
+    out = so + (se if rc == 124 else "")
     if check and rc != 0:
-        raise BuildError("command failed (%d): %s\n%s" % (rc, " ".join(cmd), out[-4000:]))
+        raise BuildError("command failed (%d): %s\n%s" % (rc, cmd if isinstance(cmd, str) else " ".join(cmd), out[-4000:]))
     return rc, out
 
 
 def sh2(cmd, cwd=None, timeout=None, env=None, inp=None):
     """Run a command, return (rc, stdout, stderr) separately."""
-    if isinstance(cmd, str):
-        cmd = shlex.split(cmd)
-    e = dict(os.environ)
-    if env:
-        e.update(env)
-    try:
-        p = subprocess.run(cmd, cwd=cwd, env=e, input=inp, stdout=subprocess.PIPE, stderr=subprocess.PIPE,
-                           timeout=timeout, text=True, errors="replace")
-        return p.returncode, p.stdout, p.stderr
-    except subprocess.TimeoutExpired as ex:
-        so = ex.stdout if isinstance(ex.stdout, str) else (ex.stdout or b"").decode("utf8", "replace")
-        se = ex.stderr if isinstance(ex.stderr, str) else (ex.stderr or b"").decode("utf8", "replace")
-        return 124, so or "", (se or "") + "\n[timeout after %ss]" % timeout
+    return _run(cmd, cwd, timeout, env, inp, False)
 
 
 class Lock:
@@ -92,27 +94,42 @@ _SG_LOCK = None
 
 
 def build_simgrid(targets=None):
-    """(Re)build /repo's working tree with hooks on in build/sg. Incremental.  The build runs under an exclusive lock;
-    afterwards this process keeps a SHARED lock until it exits, so nobody relinks libsimgrid under a running check."""
+    """(Re)build /repo's working tree with hooks on in build/sg. Incremental.
+    Locking: a check holds a SHARED lock on build/sg.lock until it exits (nobody relinks libsimgrid under a running
+    check).  It first asks `ninja -n` whether anything must be rebuilt; only then does it upgrade to an EXCLUSIVE lock
+    (waiting for the running checks to finish).  build/sg.gate is held while deciding/building so that newcomers queue
+    behind a pending rebuild instead of starving it."""
     global _SG_LOCK
     targets = targets or SG_TARGETS
     os.makedirs(B, exist_ok=True)
-    if _SG_LOCK is None:
-        _SG_LOCK = open(os.path.join(B, "sg.lock"), "w")
-    fcntl.flock(_SG_LOCK, fcntl.LOCK_EX)
+    gate = open(os.path.join(B, "sg.gate"), "w")
+    fcntl.flock(gate, fcntl.LOCK_EX)
     try:
-        if not os.path.exists(os.path.join(SG, "build.ninja")):
-            os.makedirs(SG, exist_ok=True)
-            sh(["cmake", "-S", REPO, "-B", SG] + CMAKE_ARGS, check=True, timeout=600)
-        rc, out = sh(["ninja", "-C", SG] + targets, timeout=3600)
-        if rc != 0:
-            # a changed CMake file list can need a re-configure; try once
-            sh(["cmake", "-S", REPO, "-B", SG] + CMAKE_ARGS, timeout=600)
-            rc, out = sh(["ninja", "-C", SG] + targets, timeout=3600)
-        if rc != 0:
-            raise BuildError("simgrid does not build:\n" + out[-6000:])
-    finally:
+        if _SG_LOCK is None:
+            _SG_LOCK = open(os.path.join(B, "sg.lock"), "w")
         fcntl.flock(_SG_LOCK, fcntl.LOCK_SH)
+        fresh = not os.path.exists(os.path.join(SG, "build.ninja"))
+        if not fresh:
+            rc, out = sh(["ninja", "-C", SG, "-n"] + targets, timeout=600)
+            if rc == 0 and "no work to do" in out:
+                return True
+        fcntl.flock(_SG_LOCK, fcntl.LOCK_EX)
+        try:
+            if fresh:
+                os.makedirs(SG, exist_ok=True)
+                sh(["cmake", "-S", REPO, "-B", SG] + CMAKE_ARGS, check=True, timeout=600)
+            rc, out = sh(["ninja", "-C", SG] + targets, timeout=3600)
+            if rc != 0:
+                # a changed CMake file list can need a re-configure; try once
+                sh(["cmake", "-S", REPO, "-B", SG] + CMAKE_ARGS, timeout=600)
+                rc, out = sh(["ninja", "-C", SG] + targets, timeout=3600)
+            if rc != 0:
+                raise BuildError("simgrid does not build:\n" + out[-6000:])
+        finally:
+            fcntl.flock(_SG_LOCK, fcntl.LOCK_SH)
+    finally:
+        fcntl.flock(gate, fcntl.LOCK_UN)
+        gate.close()
     return True
 
 
